@@ -165,8 +165,9 @@ class Parser:
             self.next(); tm = self.term(); self.expect("{")
             cases = []
             while self.peek() != "}":
+                cl = self.line()
                 pat = self.term(); self.expect("=>"); body = self.block()
-                cases.append({"pattern": pat, "body": body})
+                cases.append({"pattern": pat, "body": body, "line": cl})
             self.expect("}")
             return {"match": tm, "cases": cases, "line": ln}
         raise ParseError(f"unexpected token {t!r} in rule body (line {ln})")
